@@ -179,6 +179,7 @@ func c08Case(c *Ctx, id, stack string, items []string) {
 	in := NewInterp(stack)
 	src := in.Top.At(memTarget(stack)).Fs
 	root := ""
+	climbing := false
 	if strings.Count(stack, "bp:") == 1 {
 		root = cleanGo(string(unhx(strings.TrimSuffix(strings.TrimPrefix(stack, "bp:"), "(mem)"))))
 	} else {
@@ -187,6 +188,11 @@ func c08Case(c *Ctx, id, stack string, items []string) {
 		r2 := string(unhx(strings.TrimPrefix(parts[0], "bp:")))
 		r1 := string(unhx(strings.TrimPrefix(parts[1], "bp:")))
 		root = cleanGo(r1 + "/" + r2)
+		climbing = strings.Contains(r2, "..")
+		if !insideSegs(root, cleanGo(r1)) {
+			// an outer root that climbs ("..") cannot widen the inner confinement
+			root = cleanGo(r1)
+		}
 	}
 	c.Case("case %s %s", id, stack)
 	failed := false
@@ -219,7 +225,13 @@ func c08Case(c *Ctx, id, stack string, items []string) {
 			failed = true
 			c.Oracle("FAIL %s outside-changed:%s step %d (%s) changed something outside %s: before=%s after=%s", id, opName(it), i, it, root, before, after)
 		}
-		if strings.Contains(out, hx([]byte(outsideMarker))) {
+		// names with the marker exist only outside, unless an outer root that collapses to "/" lets the
+		// program create such names INSIDE the inner root; then only the marker CONTENT counts
+		leakPat := hx([]byte(outsideMarker))
+		if climbing {
+			leakPat = hx([]byte(outsideMarker + "-"))
+		}
+		if strings.Contains(out, leakPat) {
 			failed = true
 			c.Oracle("FAIL %s outside-leaked:%s step %d (%s) returned outside content or names: %s", id, opName(it), i, it, out)
 		}
@@ -250,6 +262,9 @@ func genC08(r *Rng, stack, memTgt, root string) []string {
 	if parentOf(root) == "/" {
 		sib[2] = "/zz"
 	}
+	// a sibling that differs from the root only in letter case
+	upper := strings.TrimSuffix(parentOf(root), "/") + "/" + strings.ToUpper(root[strings.LastIndex(root, "/")+1:])
+	sib = append(sib, upper)
 	for _, s := range sib {
 		mk(s)
 		file(s+"/"+outsideMarker+".txt", outsideMarker+"-secret")
@@ -264,7 +279,8 @@ func genC08(r *Rng, stack, memTgt, root string) []string {
 	names := []string{"f.txt", "/f.txt", "in/g.txt", "in", "", "/", ".", "new", "in/new",
 		"../" + last + "2/" + outsideMarker + ".txt", "../" + last + "2", "../" + last + "ment/" + outsideMarker + ".txt", "..", "../..", "../zz",
 		"in/../../" + last + "2/" + outsideMarker + ".txt", "/../" + last + "2", "../" + last + "/f.txt", "../" + last, "//in//..//../" + last + "2",
-		"../" + outsideMarker + "top.txt", "../../" + outsideMarker + "top.txt", "./../" + last + "2/x"}
+		"../" + outsideMarker + "top.txt", "../../" + outsideMarker + "top.txt", "./../" + last + "2/x",
+		"../" + strings.ToUpper(last) + "/" + outsideMarker + ".txt", "../" + strings.ToUpper(last), "../" + strings.ToUpper(last) + "/planted"}
 	w := &WrapGen{r: r, Paths: names, Next: slot, Tgt: "."}
 	for i := r.Range(6, 30); i > 0; i-- {
 		w.Step()
@@ -299,7 +315,7 @@ func runC08(c *Ctx) {
 	}
 	// (1) RealPath / httpDir: exhaustive over short names
 	names := allStrings([]byte{'a', 'b', '.', '/'}, maxLen)
-	roots := []string{"/", "/a", "/a/", "/ab", "a", "./a", "/a/b", "/a/../b", "//a"}
+	roots := []string{"/", "/a", "/a/", "/ab", "a", "./a", "/a/b", "/a/../b", "//a", "/A", "/b/A"}
 	k := 0
 	for _, rt := range roots {
 		for _, nm := range names {
@@ -313,6 +329,26 @@ func runC08(c *Ctx) {
 			k++
 		}
 	}
+	// httpDir: names with percent escapes (an escaped dot or separator stays what it is: a name byte)
+	toks := []string{"a", ".", "/", "%2e", "%2f", "..", "%2E%2E", "%"}
+	var rec func(prefix string, d int)
+	rec = func(prefix string, d int) {
+		if prefix != "" {
+			for _, rt := range []string{"/a", "/a/b"} {
+				httpdirCase(c, fmt.Sprintf("hp%d", k), []byte(rt), []byte(prefix))
+				k++
+			}
+		}
+		if d == 0 {
+			return
+		}
+		for _, t := range toks {
+			if strings.Contains(t, "%") || strings.Contains(prefix, "%") || d == 4 {
+				rec(prefix+t, d-1)
+			}
+		}
+	}
+	rec("", 4)
 	// symlinks: every pair of short names (relative and absolute targets) for two roots
 	short := allStrings([]byte{'a', '.', '/'}, 4)
 	for _, rt := range []string{"/a", "/a/b"} {
@@ -332,8 +368,12 @@ func runC08(c *Ctx) {
 		stack := fmt.Sprintf("bp:%s(mem)", hx([]byte(root)))
 		tgt := "0"
 		if r.Chance(1, 5) {
-			// nested base paths
-			stack = fmt.Sprintf("bp:%s(bp:%s(mem))", hx([]byte("/in")), hx([]byte(root)))
+			// nested base paths; sometimes with an outer root that tries to climb out of the inner one
+			outer := "/in"
+			if r.Chance(1, 2) {
+				outer = Pick(r, []string{"..", "../..", "/..", "in/../..", ".", "../" + root[strings.LastIndex(root, "/")+1:] + "2"})
+			}
+			stack = fmt.Sprintf("bp:%s(bp:%s(mem))", hx([]byte(outer)), hx([]byte(root)))
 			tgt = "00"
 		}
 		items := genC08(r, stack, tgt, root)
